@@ -503,6 +503,107 @@ Definition apply_to (K : skind) (chain : list step) (st : store) (inputs : list 
       end
   end.
 
+(* ------------------------------------------------------------------ repaired variants *)
+
+(** The code after the repairs of _proxy_input (skips only None and empty
+    str/bytes), of _apply_to (every input travels in a source_proxy) and of the
+    directory store writes (an existing member is replaced, never listed
+    twice; write() retires the not-completed record first).  Each repair is a
+    flag, so that the model can follow any combination the driver's
+    behavioural probes find; [pinned] is the code before the repairs (the
+    definitions above), [repaired] the current code. *)
+Record variant := mkvariant { v_keepfalsy : bool; v_wrapall : bool; v_upsert : bool }.
+Definition pinned : variant := mkvariant false false false.
+Definition repaired : variant := mkvariant true true true.
+
+(** replace the record named n wherever it is listed, else append it *)
+Definition upsert {A} (n : str) (x : A) (l : list (str * A)) : list (str * A) :=
+  if mem_str n (map fst l) then map (fun e => if str_eqb (fst e) n then (n, x) else e) l
+  else l ++ [(n, x)].
+
+Definition write_v (V : variant) (K : skind) (st : store) (id : str) (data : value) : result store :=
+  match check_writable K st id with
+  | Some e => Exc e
+  | None =>
+      let uid := k_fname K id in
+      let nc := filter (fun e => negb (k_retire K (fst e) id)) (st_nc st) in
+      let done := if v_upsert V then upsert uid (id, data) (st_done st)
+                  else if contains K st uid then st_done st else st_done st ++ [(uid, (id, data))] in
+      Ok (mkstore done nc (st_logs st) (st_mode st))
+  end.
+
+Definition write_nc_v (V : variant) (K : skind) (st : store) (id : str) (data : value) : result store :=
+  let uid := k_ncname K id in
+  match check_writable K st uid with
+  | Some e => Exc e
+  | None =>
+      if v_upsert V then Ok (mkstore (st_done st) (upsert uid data (st_nc st)) (st_logs st) (st_mode st))
+      else if contains K st uid then Ok st
+      else Ok (mkstore (st_done st) (st_nc st ++ [(uid, data)]) (st_logs st) (st_mode st))
+  end.
+
+Definition writer_main_v (V : variant) (K : skind) (st : store) (data : value) (identifier : option str) : result store :=
+  let ident := match identifier with
+               | Some (c :: s) => Some (c :: s)
+               | _ => unique_id_of (source_of data)
+               end in
+  match ident with
+  | None => Exc E_Type
+  | Some i => if is_nc data then write_nc_v V K st i data else write_v V K st i data
+  end.
+
+Definition write_result_v (V : variant) (K : skind) (acc : result store) (it : item) : result store :=
+  match acc with
+  | Exc e => Exc e
+  | Ok st =>
+      match result_id it with
+      | None => Exc E_Type
+      | Some id => writer_main_v V K st (result_data it) (Some id)
+      end
+  end.
+
+Definition write_results_v (V : variant) (K : skind) (st : store) (rs : list item) : result store :=
+  fold_left (write_result_v V K) rs (Ok st).
+
+(** _proxy_input on the elements of a list; [wrapped]: the elements already are
+    source_proxy objects (apply_to after the repair), whose bool() is that of
+    the object and which are neither None nor a str *)
+Definition dropped (V : variant) (wrapped : bool) (e : value) : bool :=
+  if v_keepfalsy V then
+    (if wrapped then false else match e with VNone => true | VStr [] => true | _ => false end)
+  else negb (truthy e).
+
+Definition proxy_input_v (V : variant) (wrapped : bool) (l : list value) : list item :=
+  flat_map (fun e => if dropped V wrapped e then []
+                     else [if wrapped then Wrapped e e
+                           else if has_source_attr e then Bare e else Wrapped e e]) l.
+
+Definition apply_to_v (V : variant) (K : skind) (chain : list step) (st : store) (inputs : list value)
+           (sched : option (list nat)) (logging : bool) : result store :=
+  match chain with
+  | [] => Exc E_Other
+  | _ :: _ =>
+      match collect K st [] inputs with
+      | Exc e => Exc e
+      | Ok todo =>
+          if is_empty inputs then Exc E_Value
+          else
+            let mapped := proxy_input_v V (v_wrapall V) (map snd todo) in
+            let serial := map (source_wrapped chain) mapped in
+            let rs := match sched with None => serial | Some p => reorder p serial end in
+            match write_results_v V K st rs with
+            | Exc e => Exc e
+            | Ok st' =>
+                if logging then
+                  match check_writable K st' s_dotlog with
+                  | Some e => Exc e
+                  | None => Ok (mkstore (st_done st') (st_nc st') (st_logs st' + 1) (st_mode st'))
+                  end
+                else Ok st'
+            end
+      end
+  end.
+
 (* ------------------------------------------------------------------ composition (`+`) *)
 
 (** _add: [None] = accepted, [Some code] = raised.  [ret] is self._return_types
